@@ -1,3 +1,3 @@
-CONSTANTS Prog <- CcXds ResetLocking = "asfound" EventUnlock = TRUE HandlerFetch = TRUE
+CONSTANTS Prog <- CcXds ResetLocking = "asfound" EventUnlock = TRUE HandlerFetch = TRUE Arm = 2 GapLocked = TRUE ResizeSameUnlocks = TRUE
 SPECIFICATION Spec
 INVARIANTS HolderOK
